@@ -77,7 +77,7 @@ def run(prog, tier, extra=None):
     res = Result("C01", "other")
     R1 = res.rule("C01.gate", "a rejecting verdict reaches no accept outcome of its consumer", floor=18)
     R1b = res.rule("C01.combinator", "the result of all()/any() over a verdict closure gates its consumer", floor=2)
-    R2 = res.rule("C01.who-may-insert", "only add_transaction (behind validate) and add_block_transactions_back insert into the pool", floor=2)
+    R2 = res.rule("C01.who-may-insert", "only add_transaction (behind validate) and add_block_transactions_back insert into the pool", floor=3)
     R3 = res.rule("C01.signature", "Transaction::validate accept paths pass verify_signature(hash_for_signature, signature, from[0].public_key)", floor=1)
 
     units = prog.units
@@ -152,9 +152,7 @@ def run(prog, tier, extra=None):
 
     # R2: who may insert into Mempool.transactions
     fa = FieldAnalysis(prog)
-    allowed = {CORE + "consensus::mempool::Mempool::add_transaction::{closure#0}": "the insertion point",
-               CORE + "consensus::blockchain::Blockchain::add_block_transactions_back::{closure#0}":
-                   "returns transactions of an unwound block; each is re-validated by the filter closure (R1 instance)"}
+    allowed = {CORE + "consensus::mempool::Mempool::add_transaction::{closure#0}": "the insertion point"}
     for b in prog.all_bodies():
         if "::tests::" in b.path or "/test/" in b.file:
             continue
@@ -166,13 +164,20 @@ def run(prog, tier, extra=None):
                                     "%s inserts into Mempool.transactions outside the validated insertion point" % consumer_name(b.path), b.loc(s[1])))
     cg = CallGraph(prog, [u for u in prog.units if u.crate in ("saito_core", "saito_rust", "saito_spammer")])
     add_tx = CORE + "consensus::mempool::Mempool::add_transaction"
+    callers_ok = {
+        CORE + "consensus::mempool::Mempool::add_transaction_if_validates": "behind Transaction::validate (R1 instance)",
+        CORE + "consensus::blockchain::Blockchain::add_block_transactions_back":
+            "re-adds transactions of a failed own block; each passed the filter closure's Transaction::validate (R1 instance)",
+    }
+    seen_callers = set()
     for e in cg.inn.get(add_tx, []) + cg.inn.get(add_tx + "::{closure#0}", []):
         if e.kind == "creates" or "::tests::" in e.src or "/test/" in cg.bodies[e.src].file:
             continue
-        if e.src.startswith(add_tx):
+        if e.src in (add_tx, add_tx + "::{closure#0}") or e.src in seen_callers:
             continue
+        seen_callers.add(e.src)
         res.instance(R2)
-        if not e.src.startswith(CORE + "consensus::mempool::Mempool::add_transaction_if_validates"):
+        if not any(e.src in (c, c + "::{closure#0}") for c in callers_ok):
             res.add(Finding(R2, "C01.who-may-insert|caller|%s" % e.src,
                             "%s calls Mempool::add_transaction without going through add_transaction_if_validates" % consumer_name(e.src),
                             cg.bodies[e.src].loc(e.bb)))
